@@ -329,10 +329,15 @@ func (c *checkSchema) collectAllowedJsonTypes(node ischema.Node, ss map[string]i
 	}
 
 	for _, typeName := range typesConstraint.(*constraint.TypesList).Names() {
-		if _, ok := c.foundTypeNames[typeName]; ok {
-			panic(errs.ErrImpossibleToDetermineTheJsonTypeDueToRecursion.F(typeName))
+		// The generated names of unnamed types (rule sets inside the "or" rule)
+		// are not tracked: every loop passes through a named type as well, and
+		// that is the name the user can understand.
+		if len(typeName) == 0 || typeName[0] != '#' {
+			if _, ok := c.foundTypeNames[typeName]; ok {
+				panic(errs.ErrImpossibleToDetermineTheJsonTypeDueToRecursion.F(typeName))
+			}
+			c.foundTypeNames[typeName] = struct{}{}
 		}
-		c.foundTypeNames[typeName] = struct{}{}
 		c.collectAllowedJsonTypes(getType(typeName, c.rootSchema, ss).RootNode(), ss) // can panic
 	}
 }
